@@ -194,7 +194,28 @@ void __wrap_fiber_context_destroy(fiber_context_t* ctx) {
   __real_fiber_context_destroy(ctx);
 }
 
+// a scheduler (its two single-owner deques) belongs to the kernel thread that runs its loop: the
+// first thread seen asking it for the next fiber. Any other kernel thread pushing onto it or popping
+// from it is a second owner of a single-owner queue - what a manager pointer kept across a
+// migration of the fiber does.
+static struct { fiber_scheduler_t* s; int owner; } sown[8];
+static void sched_owner_check(fiber_scheduler_t* s, int is_next, const char* op) {
+  if (!fmc_is_exploring || !(fmc_omask & FMC_O_OWNER)) return;
+  int me_ = fmc_tid(), i = 0;
+  while (i < 8 && sown[i].s && sown[i].s != s) i++;
+  if (i == 8) return;
+  if (!sown[i].s) {
+    if (!is_next) return;  // ownership is learnt from the owner's own loop only
+    sown[i].s = s;
+    sown[i].owner = me_;
+    return;
+  }
+  if (sown[i].owner != me_)
+    fmc_fail("run queue: T%d calls %s on the scheduler that belongs to T%d (a manager/scheduler pointer kept across a migration of the fiber?): second owner of a single-owner run queue", me_, op, sown[i].owner);
+}
+
 void __wrap_fiber_scheduler_schedule(fiber_scheduler_t* s, fiber_t* f) {
+  sched_owner_check(s, 0, "fiber_scheduler_schedule");
   if (fmc_is_exploring) {
     gf_t* g = find(&f->context);
     if (g) {
@@ -208,6 +229,7 @@ void __wrap_fiber_scheduler_schedule(fiber_scheduler_t* s, fiber_t* f) {
 }
 
 fiber_t* __wrap_fiber_scheduler_next(fiber_scheduler_t* s) {
+  sched_owner_check(s, 1, "fiber_scheduler_next");
   fiber_t* r = __real_fiber_scheduler_next(s);
   if (!r && fmc_is_exploring) {
     fiber_manager_t* m = fiber_manager_get();
